@@ -13,7 +13,7 @@ from hypothesis import strategies as st
 from . import model as M
 from . import findings
 
-PY_KEYWORDS = ['lambda', 'def', 'in', 'is', 'pass', 'None', 'del', 'import', 'raise', 'elif',
+PY_KEYWORDS = ['lambda', 'def', 'in', 'async', 'is', 'pass', 'None', 'await', 'del', 'import', 'raise', 'elif',
                'as', 'with', 'assert', 'finally', 'nonlocal', 'yield', 'from', 'global', 'except',
                'True', 'False', 'not', 'or', 'and']  # Python keywords that are not C++ keywords
 IPYTHON = ["svg", "png", "jpeg", "html", "javascript", "markdown", "latex"]
@@ -82,6 +82,8 @@ class Profile:
     class_template_odds: int = 3      # 1 in (odds+1) classes is a template
     member_template_odds: int = 5
     move_typedefs: bool = True        # typedefs may precede their template
+    typedef_same_ns: bool = False     # typedef only in the namespace of its template
+    this_scoped: bool = True          # This::X uses
     scoped_needs_plain_arg: bool = False
 
 
@@ -109,6 +111,8 @@ class Ctx:
         self.used = {}  # path -> set of names declared in that scope
         self.lower_classes = set()
         self.scoped_ok = set()  # template parameters that may be used as T::X
+        self.fn_count = {}      # (path, name) -> number of free functions of that name
+        self.locked = set()     # (path, name) used as typedef target: must stay unique
 
     def names(self, path):
         return self.used.setdefault(path, set())
@@ -196,7 +200,7 @@ def types(draw, ctx: Ctx, depth: int, tparams: Sequence[str] = (), qualifiers=Tr
             inner_names = [n for n in inner_names if n not in tparams]
         name = draw(st.sampled_from(inner_names))
     elif cat == 'this':
-        if draw(st.booleans()):
+        if draw(st.booleans()) or not prof.this_scoped:
             name = 'This'
         else:
             ns, name = ('This',), draw(st.sampled_from(['Value', 'Type', 'Sub']))
@@ -292,7 +296,7 @@ def templates(draw, ctx: Ctx, used=(), force_lists=None, max_params=None):
 def _member_names(ctx):
     pool = list(FUNC_POOL)
     if ctx.prof.py_keyword_names:
-        pool += PY_KEYWORDS[:8] + ['print'] + IPYTHON[:2]
+        pool += PY_KEYWORDS[:10] + ['print'] + IPYTHON[:2]
     return pool
 
 
@@ -357,6 +361,10 @@ def classes(draw, ctx: Ctx, path: Tuple[str, ...]):
     if prof.enums and not (reused and prof.unique_lower_class_names):
         kinds.append('enum')
     kinds.append('dunder')
+    if prof.name != 'dialect' and draw(st.integers(0, 4)) == 2:
+        # serialization marker (at most one per class), as in DOCS.md
+        members.append(M.Method(M.Ret(M.Type((), 'void')),
+                                draw(st.sampled_from(['serialize', 'serializable'])), (), True))
     for _ in range(n):
         k = draw(st.sampled_from(kinds))
         ctx.scoped_ok = set(class_ok)
@@ -434,8 +442,10 @@ def functions(draw, ctx: Ctx, path):
     ctx.scoped_ok = {p.name for p in template.params if not any(i.targs for i in p.insts)} \
         if template else set()
     pool = FUNC_POOL + (PY_KEYWORDS[:6] + ['print'] if prof.py_keyword_names else [])
-    classes_here = {d.name for d in ctx.decls if d.path == path}
+    classes_here = {d.name for d in ctx.decls if d.path == path and d.kind != 'func'} | \
+        {n for (p_, n) in ctx.locked if p_ == path}
     name = draw(lower_name(pool, classes_here))
+    ctx.fn_count[(path, name)] = ctx.fn_count.get((path, name), 0) + 1
     r = draw(rets(ctx, tps))
     a = draw(arg_lists(ctx, tps))
     fn = M.Func(r, name, a, template)
@@ -452,16 +462,20 @@ def typedefs(draw, ctx: Ctx, path):
     prof = ctx.prof
     used = ctx.names(path)
     targets = [d for d in ctx.decls if d.nparams > 0 and
-               [x for x in ctx.decls if x.name == d.name and x.path == d.path] == [d]]
+               [x for x in ctx.decls if x.name == d.name and x.path == d.path] == [d] and
+               (d.kind != 'func' or ctx.fn_count.get((d.path, d.name), 0) == 1)]
     if findings.is_open('F-7-typedef-after-namespace'):
         # the template's namespace must enclose (or be) the typedef's namespace
         targets = [d for d in targets if d.path == path[:len(d.path)]]
+    if prof.typedef_same_ns:
+        targets = [d for d in targets if d.path == path]
     shared = [d for d in targets if any(x is not d and x.name == d.name for x in ctx.decls)]
     if shared and draw(st.booleans()):
         targets = shared
     if targets:
         d = draw(st.sampled_from(targets))
         ns, nm, n = d.path, d.name, d.nparams
+        ctx.locked.add((d.path, d.name))
     elif prof.typedef_needs_target:
         return None
     else:
